@@ -24,8 +24,8 @@ var Check = &ev.Check{
 	Level: "exploration",
 	Rule: "(a) every reference cycle of length 1..3 (thorough: plus length 4 over the 8 core kinds) over 21 node kinds (typedef direct/list/set/map-key/map-value, struct optional/required/list field, union, exception, " +
 		"const i32/i64/list/map/struct-literal, struct field default -> const, default = {} / [{}] literal of a struct type, default = constant of the own struct type, const of a struct type, service extends; cycles of length<=2 also reached through 9 kinds of entry definition in a separate root file (constant, typedef, typedef chains of 2 and 3, struct default, service, constant / default / map key of an alias)) including mixed and ill-kinded ones, each in a single file and in one file per node (cyclic / self includes); " +
-		"(b) every token sequence of length<=4 (quick) / <=5 (thorough) over a reduced 24-token alphabet and <=3 / <=4 over the full 61-token alphabet, every byte string of length<=2 over 256 values; " +
-		"(c) every single-token deletion, duplication, substitution (10 substitutes) and insertion of 10 comment / docstring shapes before every definition keyword of each corpus file (plugin/api.thrift and gen/internal/tests/thrift/*.thrift; quick: files <= 400 tokens, thorough: all files, budget-capped). " +
+		"(a2) every annotation the generator reads {go.name, go.label, go.tag, go.type, go.redact, go.nolog, go.package, an unknown key} x 14 values (empty, lower/upper case, underscore, digit, blank, quote, keyword, non-ASCII, ...) and without value, on 11 kinds of annotatable node; (b) every token sequence of length<=4 (quick) / <=5 (thorough) over a reduced 24-token alphabet and <=3 / <=4 over the full 61-token alphabet, every byte string of length<=2 over 256 values; " +
+		"(c) every single-token deletion, duplication, substitution (11 substitutes, among them the empty string literal) and insertion of 10 comment / docstring shapes before every definition keyword of each corpus file (plugin/api.thrift and gen/internal/tests/thrift/*.thrift; quick: files <= 400 tokens, thorough: all files, budget-capped). " +
 		"Each input runs compile.Compile and, if it compiled, gen.Generate in a memory-limited worker process; a panic, fatal error (stack overflow) or hang is attributed to the input. Cases are distinct inputs by construction; non-trivial = every case.",
 	Run: run,
 	Budget: func(t string) time.Duration {
@@ -394,6 +394,41 @@ var coreTokens = []string{
 	"{", "}", "(", ")", "<", ">", ",", ":", "=", "a", "1", "\"s\"",
 }
 
+// annotated: every annotation the generator reads, with every value of a small hostile
+// alphabet, on every kind of annotatable node.
+func annotated(yield func(input)) {
+	keys := []string{"go.name", "go.label", "go.tag", "go.type", "go.redact", "go.nolog", "go.package", "unknown.key"}
+	values := []string{"", "A", "a", "A_b", "9", "A B", "\\\"", "type", "slice", "json:\\\"x\\\"", "json:", "\\n", "Éa", "-"}
+	sites := map[string]string{
+		"struct":    "struct S { 1: optional i32 a } (@)\n",
+		"union":     "union S { 1: i32 a } (@)\n",
+		"exception": "exception S { 1: optional i32 a } (@)\n",
+		"field":     "struct S { 1: optional i32 a (@); 2: optional set<string> b (@) }\n",
+		"required":  "exception S { 1: required string a (@) }\n",
+		"enum":      "enum S { A, B } (@)\n",
+		"item":      "enum S { A (@), B }\n",
+		"typedef":   "typedef set<i32> (@) S (@)\nstruct T { 1: optional S s }\n",
+		"service":   "service S { void f(1: i32 a (@)) (@) } (@)\n",
+		"const":     "const i32 S = 1 (@)\n",
+		"twice":     "struct S { 1: optional i32 a (@); 2: optional i32 b (@) }\n",
+	}
+	var names []string
+	for n := range sites {
+		names = append(names, n)
+	}
+	sort.Strings(names)
+	for _, site := range names {
+		for _, k := range keys {
+			for _, v := range values {
+				ann := fmt.Sprintf("%s = \"%s\"", k, v)
+				yield(input{Class: "annotation:" + site + ":" + k, Root: "a.thrift", Files: map[string]string{"a.thrift": strings.ReplaceAll(sites[site], "@", ann)}})
+			}
+			// the annotation without a value
+			yield(input{Class: "annotation:" + site + ":" + k, Root: "a.thrift", Files: map[string]string{"a.thrift": strings.ReplaceAll(sites[site], "@", k)}})
+		}
+	}
+}
+
 func tokenStrings(alpha []string, maxLen int, yield func([]string)) {
 	for l := 0; l <= maxLen; l++ {
 		idx := make([]int, l)
@@ -430,7 +465,7 @@ var inserts = []string{"/**\n */", "/**\n\n*/", "/** */", "/***/", "/**/", "/**\
 // docAnchors: the tokens a docstring attaches to.
 var docAnchors = map[string]bool{"struct": true, "union": true, "exception": true, "enum": true, "service": true, "const": true, "typedef": true, "include": true, "namespace": true, "oneway": true, "void": true}
 
-var substitutes = []string{"{", "}", "(", ",", "=", "<", "1", "a", "struct", "\"s\""}
+var substitutes = []string{"{", "}", "(", ",", "=", "<", "1", "a", "struct", "\"s\"", "\"\""}
 
 func corpus() map[string]string {
 	out := map[string]string{}
@@ -494,6 +529,7 @@ func run(w *ev.W) {
 	}
 	cycles(w.Quick(), func(in input) { do(func() input { return in }, "cycles") })
 	collisions(func(in input) { do(func() input { return in }, "name-collisions") })
+	annotated(func(in input) { do(func() input { return in }, "annotations") })
 
 	tokFam := func(alpha []string, n int, name string) {
 		tokenStrings(alpha, n, func(toks []string) {
